@@ -84,6 +84,24 @@ def mentions(t, what):
     return any(s == what for s in subterms(t))
 
 
+def subst_term(t, mapping, _memo=None):
+    """replace every occurrence of the keys of `mapping` (terms) in t (outermost match first)"""
+    if not isinstance(t, tuple):
+        return t
+    memo = {} if _memo is None else _memo
+    try:
+        if t in memo:
+            return memo[t]
+    except TypeError:
+        return t
+    if t in mapping:
+        r = mapping[t]
+    else:
+        r = tuple(subst_term(x, mapping, memo) if isinstance(x, tuple) else x for x in t)
+    memo[t] = r
+    return r
+
+
 def show(t, depth=0):
     """human readable rendering of a term"""
     if not isinstance(t, tuple) or not t:
@@ -1419,6 +1437,95 @@ def _is_definition_lookup(name):
             or name in ("get_classes", "get_methods", "get_fields", "get_classes_names", "get_methods_class", "get_fields_class"))
 
 
+def labels_of_role(r):
+    """origin labels of a role: what the value is derived from"""
+    if r is None:
+        return {"UNKNOWN"}
+    k = r[0]
+    if k == "DERIVED":
+        return set(r[1])
+    if k == "CUR":
+        return {"CUR"}
+    if k in ("T", "INFO", "REFIDX", "WRONGVM", "WRONGIDX"):
+        return {"TARGET"}
+    if k == "OFF":
+        return {"OFF"}
+    if k in ("INS", "INSLEN", "CM", "INSPAIR"):
+        return {"INS"}
+    if k == "VM":
+        return {"INS"} if r[1] == "ins" else set()
+    if k in ("OP", "REF"):
+        return {"OP"}
+    if k == "const":
+        return {"CONST"}
+    if k == "PREV":
+        return {"PREV"}
+    if k in ("TABLE", "ANALYSIS"):
+        return set()
+    if k == "LIN":
+        out = set()
+        for a, _ in r[1]:
+            out |= labels_of_role(a)
+        return out
+    if k == "METH" and r[1] == "CUR":
+        return {"CUR"}
+    if k == "ENC" and len(r) > 1 and r[1] == "CUR":
+        return {"CUR"}
+    out = set()
+    for x in r[1:]:
+        if isinstance(x, tuple):
+            if x and isinstance(x[0], str):
+                out |= labels_of_role(x)
+            else:
+                for y in x:
+                    if isinstance(y, tuple):
+                        out |= labels_of_role(y) if (y and isinstance(y[0], str)) else set()
+        elif x is None:
+            out.add("UNKNOWN")
+    return out
+
+
+def _essential(want):
+    """what a value in the position of `want` must be derived from"""
+    lab = labels_of_role(want)
+    ess = set()
+    for l in ("TARGET", "OFF", "CUR", "OP"):
+        if l in lab:
+            ess.add(l)
+    return ess
+
+
+def compare_roles(got, want):
+    """'ok' | 'wrong' | 'unknown'.  wrong = the value provably is not what the specification asks for: it is a
+    different specific role, or it stems from a previous iteration, or it is not derived from what it must be derived
+    from (e.g. a class name derived from the scanned class where the instruction's reference is required)."""
+    if got == want:
+        return "ok"
+    if got is None:
+        return "unknown"
+    lab = labels_of_role(got)
+    if "PREV" in lab:
+        return "wrong"
+    if (isinstance(got, tuple) and isinstance(want, tuple) and got and want and got[0] == want[0] and len(got) == len(want)
+            and got[0] in ("CLS", "STR", "METH", "FIELD", "ENC")):
+        res = [compare_roles(g, w) if isinstance(w, tuple) and w and isinstance(w[0], str) else ("ok" if g == w else "wrong")
+               for g, w in zip(got[1:], want[1:])]
+        if "wrong" in res:
+            return "wrong"
+        if "unknown" in res:
+            return "unknown"
+        return "ok"
+    if "UNKNOWN" in lab:
+        return "unknown"
+    if got[0] != "DERIVED":
+        return "wrong"  # a specific, different role
+    for e in _essential(want):
+        have = lab | ({"TARGET"} if ("INS" in lab and e == "TARGET") else set())
+        if e not in have:
+            return "wrong"
+    return "unknown"
+
+
 class Roles:
     """classifies terms of `Analysis._create_xref` by origin"""
 
@@ -1453,9 +1560,52 @@ class Roles:
     def role(self, t):
         if t in self._memo:
             return self._memo[t]
+        self._memo[t] = None
         r = self._role(t)
+        if r is None and isinstance(t, tuple) and t:
+            # not one of the specific roles: if every leaf has a known origin the term is still *typed by what it is
+            # derived from* (CUR / TARGET / OFF / INS / OP / CONST / PREV); an unknown leaf leaves it unclassified
+            lab = self.labels_term(t)
+            if "UNKNOWN" not in lab:
+                r = ("DERIVED", tuple(sorted(lab)), self._render_struct(t))
         self._memo[t] = r
         return r
+
+    def labels_term(self, t, depth=0):
+        if not isinstance(t, tuple) or not t:
+            return set()
+        if depth > 40:
+            return {"UNKNOWN"}
+        k = t[0]
+        if not isinstance(k, str):
+            out = set()
+            for x in t:
+                if isinstance(x, tuple):
+                    out |= self.labels_term(x, depth + 1)
+            return out
+        if k == "prev":
+            return {"PREV"}
+        if k == "unk":
+            return {"PREV"} if len(t) > 1 and t[1] in ("loop-carried", "after-loop") else {"UNKNOWN"}
+        if k in ("carried", "param", "localfunc", "lambda", "expr", "starred"):
+            if t == self.cls_param:
+                return {"CUR"}
+            return {"UNKNOWN"}
+        if k == "const":
+            return {"CONST"}
+        if k in ("self0", "global", "builtin", "class", "func", "module"):
+            return set()
+        r = self._memo.get(t) if t in self._memo else self._role(t)
+        if r is not None and r[0] != "DERIVED":
+            return labels_of_role(r)
+        out = set()
+        for x in t[1:]:
+            if isinstance(x, tuple):
+                out |= self.labels_term(x, depth + 1)
+        return out
+
+    def _render_struct(self, t):
+        return self.render(t, 0, structural=True)
 
     def _role(self, t):
         if not isinstance(t, tuple) or not t:
@@ -1464,6 +1614,8 @@ class Roles:
         R = self.role
         if t == self.cls_param:
             return ("CUR", "classdef")
+        if k == "prev":
+            return None  # typed DERIVED{PREV} by role()
         if k == "const":
             return ("const", t[1])
         if t == OP:
@@ -1582,9 +1734,9 @@ class Roles:
         return None
 
     # ---- rendering (canonical, independent of local variable names) -------------
-    def render(self, t, depth=0):
-        r = self.role(t)
-        if r is not None:
+    def render(self, t, depth=0, structural=False):
+        r = None if structural else self.role(t)
+        if r is not None and r[0] != "DERIVED":
             s = self.rname(r)
             if s is not None:
                 return s
@@ -1619,6 +1771,10 @@ class Roles:
             return "isinstance(%s, %s)" % (rd(t[1]), rd(t[2]))
         if k == "elem":
             return "<element of %s>" % rd(t[1])
+        if k == "prev":
+            return "<previous iteration's %s>" % rd(t[1])
+        if k == "unk":
+            return "<value left over from another iteration: %s>" % " ".join(str(x) for x in t[2:])
         return show(t)
 
     def rname(self, r):
@@ -1676,6 +1832,10 @@ class Roles:
             return "get_cm_%s(%s)" % (r[1], self.rname(r[2]) or "?")
         if k == "INSLEN":
             return "instruction.get_length()"
+        if k == "DERIVED":
+            return r[2]
+        if k == "PREV":
+            return "<value of a previous iteration>"
         if k == "LIN":
             parts = [(self.rname(a) or "?") if c == 1 else "%d*%s" % (c, self.rname(a) or "?") for a, c in r[1]]
             if r[2]:
@@ -1769,9 +1929,212 @@ class XrefModel:
                 runs.append(([k], ex.run(self.root)))
             self.nparts = len(OP_DOMAIN)
         self.ins_loops = set()
+        self.unrolled_states = 0
+        runs = self._unroll(runs)
         for members, sts in runs:
             for st in sts:
                 self.paths.append(self._reduce(members, st))
+
+    # ---- loop-carried state of the instruction loop: consecutive iterations --------------------------------
+    def _int_typed(self, t):
+        r = self.roles.role(t)
+        return r in (("REFIDX",), ("OFF",)) or (r is not None and r[0] == "DERIVED" and False)
+
+    def _cond_truth(self, term, op):
+        """truth of a condition after substitution; an instruction index / offset is never None"""
+        tv = truth(term, op)
+        if tv is not None:
+            return tv
+        atom, pol = _norm_cond(term, True)
+        # _norm_cond turns `X is None` / `X == None` into (X, False): i.e. the condition holds iff X is falsy/None
+        if isinstance(term, tuple) and term and term[0] in ("cmp", "not"):
+            inner = term
+            neg = False
+            while inner[0] == "not":
+                inner, neg = inner[1], not neg
+            if inner[0] == "cmp" and const(None) in (inner[2], inner[3]) and inner[1] in ("==", "is", "!=", "is not"):
+                other = inner[3] if inner[2] == const(None) else inner[2]
+                if self._int_typed(other) or self._int_typed(subst_term(other, self._unprev)):
+                    val = inner[1] in ("!=", "is not")
+                    return (not val) if neg else val
+        return None
+
+    def _unroll(self, runs):
+        """If variables are carried from one iteration of the instruction loop to the next (defined before the loop,
+        re-assigned in it, and read by a condition or a record), the generic iteration is instantiated with every
+        state such a variable can have after 0, 1 and 2 earlier iterations; values of an earlier iteration are
+        wrapped ("prev", ..) so that they are distinct from the current instruction's."""
+        loop_line = None
+        names = {}
+        for members, sts in runs:
+            for st in sts:
+                e = self._ins_loop_end(st)
+                if e is not None and e.key:
+                    loop_line = e.node.lineno
+                    for n, (pre, endv) in e.key.items():
+                        names.setdefault(n, set()).add(pre)
+        self._unprev = {}
+        if not names:
+            return runs
+        order = sorted(names)
+        sym = {n: ("carried", n, loop_line) for n in order}
+        symset = set(sym.values())
+
+        _uc = {}
+
+        def uses_carried(st):
+            k = id(st)
+            if k not in _uc:
+                _uc[k] = uses_carried0(st)
+            return _uc[k]
+
+        def uses_carried0(st):
+            e = self._ins_loop_end(st)
+            conds = e.conds if e is not None else st.conds
+            for c in conds:
+                if any(x in symset for x in subterms(c[0])):
+                    return True
+            for ev in st.events:
+                if ev.kind == "iter_end":
+                    continue
+                for t in (ev.recv, ev.base, ev.key if not isinstance(ev.key, dict) else None, ev.value if ev.kind != "iter_end" else None) + tuple(ev.args):
+                    if isinstance(t, tuple) and any(x in symset for x in subterms(t)):
+                        return True
+            return False
+
+        if not any(uses_carried(st) for _, sts in runs for st in sts):
+            return runs
+        # the element of the instruction loop
+        E = None
+        for _, sts in runs:
+            for st in sts:
+                for ev in st.events:
+                    for t in (ev.recv,) + tuple(ev.args):
+                        if isinstance(t, tuple):
+                            for x in subterms(t):
+                                if isinstance(x, tuple) and x and x[0] == "elem" and self.roles.role(x) == ("INSPAIR",):
+                                    E = x
+                if E is not None:
+                    break
+            if E is not None:
+                break
+        if E is None:
+            raise AnalysisError("%s: loop-carried variables %s but the loop element could not be identified" % (self.root.qualname, order))
+        # instructions of one method live in one DEX: the DEX of an earlier instruction is the DEX of the current one
+        cur_vm = ("attr", ("attr", ("item", E, 1), "cm"), "vm")
+        pe = E
+        for _ in range(4):
+            pe = ("prev", pe)
+            self._unprev[("attr", ("attr", ("item", pe, 1), "cm"), "vm")] = cur_vm
+        self.assumptions = ["all instructions of one method belong to one DEX (instruction.cm.vm is the same for consecutive iterations)"]
+
+        def wrap(v):
+            return subst_term(v, {E: ("prev", E)})
+
+        def instantiate(st, op, state, light=False):
+            """-> substituted copy of the path or None if infeasible under `state`
+            (light: only the end-of-iteration event, enough to compute the next state)"""
+            m = {sym[n]: state[i] for i, n in enumerate(order)}
+            m.update(self._unprev)
+            e_end = self._ins_loop_end(st)
+            conds = e_end.conds if e_end is not None else st.conds
+            eq = {}
+            memo_m = {}
+            for c in conds:
+                if not uses_carried(st):
+                    break
+                t2 = subst_term(c[0], m, memo_m)
+                tv = self._cond_truth(t2, op)
+                if tv is not None and tv != c[1]:
+                    return None
+                atom, truthy = _norm_cond(t2, c[1])
+                if isinstance(atom, tuple) and atom and atom[0] == "cmp" and atom[1] in ("==", "is") and truthy:
+                    a, b = atom[2], atom[3]
+                    pa = any(isinstance(x, tuple) and x and x[0] == "prev" for x in subterms(a))
+                    pb = any(isinstance(x, tuple) and x and x[0] == "prev" for x in subterms(b))
+                    if pa and not pb:
+                        eq[a] = b
+                    elif pb and not pa:
+                        eq[b] = a
+            full = dict(m)
+
+            memo_e = {}
+
+            def sub(t):
+                if not isinstance(t, tuple):
+                    return t
+                r = subst_term(t, full, memo_m)
+                return subst_term(r, eq, memo_e) if eq else r
+            st2 = St()
+            st2.raised = st.raised
+            st2.retval = st.retval
+            if light:
+                if e_end is None:
+                    return st2
+                ev2 = Ev(e_end.kind, e_end.node, e_end.func, e_end.stack, ())
+                ev2.name = e_end.name
+                ev2.key = {n: (pre, sub(v) if v is not None else None) for n, (pre, v) in e_end.key.items()} if isinstance(e_end.key, dict) else None
+                st2.events.append(ev2)
+                return st2
+            st2.conds = tuple((sub(c[0]), c[1], c[2]) for c in st.conds)
+            for ev in st.events:
+                ev2 = Ev(ev.kind, ev.node, ev.func, ev.stack, tuple((sub(c[0]), c[1], c[2]) for c in ev.conds))
+                ev2.recv, ev2.name, ev2.base = sub(ev.recv), ev.name, sub(ev.base)
+                ev2.args = tuple(sub(a) for a in ev.args)
+                ev2.kw = ev.kw
+                if isinstance(ev.key, dict):
+                    ev2.key = {n: (pre, sub(v) if v is not None else None) for n, (pre, v) in ev.key.items()}
+                else:
+                    ev2.key = sub(ev.key)
+                if ev.kind == "iter_end":
+                    g = ev.value
+                    ev2.value = (sub(g[0]), g[1], g[2]) if g is not None else None
+                else:
+                    ev2.value = sub(ev.value)
+                st2.events.append(ev2)
+            return st2
+
+        def end_state(st2):
+            e = self._ins_loop_end(st2)
+            if e is None or not e.key:
+                return None
+            return tuple(wrap(e.key[n][1]) if e.key[n][1] is not None else const(None) for n in order)
+
+        import itertools
+        s0 = set(itertools.product(*[sorted(names[n], key=repr) for n in order]))
+        all_states = list(s0)
+        frontier = list(s0)
+        for _gen in range(2):
+            nxt = []
+            for state in frontier:
+                for members, sts in runs:
+                    for st in sts:
+                        if st.raised:
+                            continue
+                        st2 = instantiate(st, members[0], state, light=True)
+                        if st2 is None:
+                            continue
+                        ns = end_state(st2)
+                        if ns is not None and ns not in all_states and ns not in nxt:
+                            nxt.append(ns)
+            if len(all_states) + len(nxt) > 48:
+                break
+            all_states += nxt
+            frontier = nxt
+        self.unrolled_states = len(all_states)
+        out = []
+        for members, sts in runs:
+            new_sts = []
+            for st in sts:
+                if not uses_carried(st):
+                    new_sts.append(st)
+                    continue
+                for state in all_states:
+                    st2 = instantiate(st, members[0], state)
+                    if st2 is not None:
+                        new_sts.append(st2)
+            out.append((members, new_sts))
+        return out
 
     def _ins_loop_end(self, st):
         """the iter_end event of the instruction loop on this path"""
@@ -1987,6 +2350,14 @@ class XrefRules:
             return "<unclassified>"
         return self.R.rname(r) or repr(r)
 
+    def decide(self, got, want, term, what):
+        """True / False for a component against its specified role; the origin cannot be classified -> exit 2"""
+        res = compare_roles(got, want)
+        if res == "unknown":
+            raise AnalysisError("%s: cannot classify the origin of %s (%s) -- the code left the analysed fragment"
+                                % (self.root.qualname, self.R.render(term), what))
+        return res == "ok"
+
     def need(self, r, term, what):
         if r is None:
             raise AnalysisError("%s: cannot classify the origin of %s (%s) -- the code left the analysed fragment"
@@ -2192,15 +2563,15 @@ class XrefRules:
             if e_owner == "FIELD-OWNER":
                 self.check_field_owner(f, inst, node)
             else:
-                self.need(f.r_owner, f.owner, "owner of the %s record" % f.getter)
-                s.check("origin", inst + " owner", f.r_owner == e_owner, self.root,
+                s.check("origin", inst + " owner", self.decide(f.r_owner, e_owner, f.owner, "owner of the %s record" % f.getter), self.root,
                         "%s.%s owner %s" % (f.owner_cls, f.getter, self.rn(f.r_owner)),
                         "%s.%s(): the record is made on %s, specification: on %s (via %s)" % (f.owner_cls, f.getter, self.rn(f.r_owner), self.rn(e_owner), via or "direct call"),
                         node=node, detail="owner = %s" % self.rn(e_owner))
             if e_key is not None or f.key is not None:
-                if f.key is not None:
-                    self.need(f.r_key, f.key, "key of the %s record" % f.getter)
-                s.check("origin", inst + " key", f.r_key == e_key, self.root,
+                okk = f.r_key == e_key
+                if f.key is not None and e_key is not None:
+                    okk = self.decide(f.r_key, e_key, f.key, "key of the %s record" % f.getter)
+                s.check("origin", inst + " key", okk, self.root,
                         "%s.%s key %s" % (f.owner_cls, f.getter, self.rn(f.r_key)),
                         "%s.%s(): the record is keyed by %s, specification: %s" % (f.owner_cls, f.getter, self.rn(f.r_key), self.rn(e_key) if e_key else "no key"),
                         node=node, detail="key = %s" % (self.rn(e_key) if e_key else None))
@@ -2211,12 +2582,12 @@ class XrefRules:
                 continue
             for i, (got, want, term) in enumerate(zip(f.r_tup, e_tup, f.tup)):
                 if want == "FIELD-ITEM":
-                    self.need(got, term, "component %d of the %s record" % (i, f.getter))
                     ok = self.field_item_ok(got)
+                    if not ok:
+                        ok = self.decide(got, ("FIELDITEM", ("VM", "ins"), (("T", "field", "class_name", "raw"),)), term, "component %d of the %s record" % (i, f.getter))
                     wants = "the EncodedField of the instruction's field reference"
                 else:
-                    self.need(got, term, "component %d of the %s record" % (i, f.getter))
-                    ok = got == want
+                    ok = self.decide(got, want, term, "component %d of the %s record" % (i, f.getter))
                     wants = self.rn(want)
                 s.check("origin", "%s [%d]" % (inst, i), ok, self.root,
                         "%s.%s[%d] = %s" % (f.owner_cls, f.getter, i, self.rn(got)),
@@ -2250,10 +2621,17 @@ class XrefRules:
         r = self.need(f.r_owner, f.owner, "owner of the %s record" % f.getter)
         ok = False
         why = ""
+        want_owner = ("FIELD", ("CLS", ("T", "field", "class_name", "raw")), ("FIELDITEM", ("VM", "ins"), (("T", "field", "class_name", "raw"),)))
+        if r[0] == "DERIVED":
+            self.decide(r, want_owner, f.owner, "owner of the %s record" % f.getter)  # unknown origin -> exit 2; provably wrong -> reported below
         if r[0] == "FIELD":
             cls_role, item = r[1], r[2]
             item_ok = self.field_item_ok(item)
             kf = cls_role[1] if cls_role is not None and cls_role[0] == "CLS" else None
+            if kf is not None and kf[0] == "DERIVED":
+                self.decide(kf, ("T", "field", "class_name", "raw"), f.owner, "class of the %s record" % f.getter)
+            if item is not None and item[0] == "DERIVED":
+                self.decide(item, want_owner[2], f.owner, "field key of the %s record" % f.getter)
             cls_ok = kf is not None and (kf == ("T", "field", "class_name", "raw") or kf[0] == "FIELDITEM.class_name")
             ok = item_ok and cls_ok
             if not cls_ok:
@@ -2377,7 +2755,7 @@ def rule_registration(sink, xm: XrefModel, which):
             rk = R.role(e.key)
             via = "/".join(e.chain()[1:]) or "direct"
             if which == "methods":
-                if rc is None or rk is None:
+                if rc is None or rk is None or any(r[0] == "DERIVED" and "PREV" not in r[1] for r in (rc, rk)):
                     raise AnalysisError("%s: cannot classify the registration %s" % (root.qualname, e))
                 ok = False
                 want = None
@@ -2990,7 +3368,10 @@ def rule_fact_offsets(sink, xm: XrefModel):
                 raise AnalysisError("%s: cannot classify the offset component %s of %s.%s()" % (xm.root.qualname, R.render(f.tup[-1]), f.owner_cls, f.getter))
             sink.count("offset_components")
             via = "/".join(f.ev.chain()[1:]) or "direct"
-            sink.check("offset-provenance", "%s.%s via %s" % (f.owner_cls, f.getter, via), got == OFFR, xm.root,
+            res = compare_roles(got, OFFR)
+            if res == "unknown":
+                raise AnalysisError("%s: cannot classify the offset component %s of %s.%s()" % (xm.root.qualname, R.render(f.tup[-1]), f.owner_cls, f.getter))
+            sink.check("offset-provenance", "%s.%s via %s" % (f.owner_cls, f.getter, via), res == "ok", xm.root,
                        "%s.%s offset = %s" % (f.owner_cls, f.getter, R.rname(got) or repr(got)),
                        "the offset recorded into %s.%s() is %s; specification: the offset get_instructions_idx() yields with the instruction (via %s)" % (
                            f.owner_cls, f.getter, R.rname(got) or repr(got), via), node=f.ev.root_node(),
